@@ -49,14 +49,14 @@ def gen_case(r, idx):
     c["env"] = env
     # targets
     t = dict(phase.TARGET_DEFAULT)
-    t["CNB_TARGET_OS"] = r.choice(["linux", "windows", "Linux x", ""])
-    t["CNB_TARGET_ARCH"] = r.choice(["amd64", "arm64", "riscv 64", "é"])
-    t["CNB_TARGET_DISTRO_NAME"] = r.choice(["ubuntu", "", "my distro", "日本", "'alpine'", '"quoted"', '"'])
+    t["CNB_TARGET_OS"] = r.choice(["linux", "windows", "Linux x", "", "Linux", "darwin", "LINUX"])
+    t["CNB_TARGET_ARCH"] = r.choice(["amd64", "arm64", "riscv 64", "é", "x86_64", "aarch64", "AMD64", "arm64/v8", "x64", "i386", "arm"])
+    t["CNB_TARGET_DISTRO_NAME"] = r.choice(["ubuntu", "", "my distro", "日本", "'alpine'", '"quoted"', '"', "Ubuntu", "UBUNTU"])
     t["CNB_TARGET_DISTRO_VERSION"] = r.choice(["24.04", "", "v 1", "rolling", '"24.04"', "''", " 24.04 ", "24.04\n"])
     if r.random() < 0.45:
         del t["CNB_TARGET_ARCH_VARIANT"]
     else:
-        t["CNB_TARGET_ARCH_VARIANT"] = r.choice(["v8", "", "v 7"])
+        t["CNB_TARGET_ARCH_VARIANT"] = r.choice(["v8", "", "v 7", "V8", "8"])
     c["targets"] = t
     c["bad_target"] = r.choice(phase.TARGET_VARS) if r.random() < 0.06 else None
     c["bp_dir_style"] = r.choice(["plain", "plain", "symlink", "dotted", "trailing-slash"])
